@@ -229,4 +229,88 @@ theorem eot_reduce_id {e : ℝ} (h : |e| < 360) : eot_reduce e = e := by
   rw [neg_zero, aReduce_zero, add_zero]
   exact aReduce_of_abs_lt h
 
+/-- `int(x)` and `abs(x) % 1` split `|x|` into integer part and fraction. -/
+theorem ptrunc_abs (x : ℝ) : |((ptrunc x : ℤ) : ℝ)| = ((⌊|x|⌋ : ℤ) : ℝ) := by
+  unfold ptrunc
+  by_cases h : 0 ≤ x
+  · simp only [h, if_true]
+    rw [abs_of_nonneg h, abs_of_nonneg (by exact_mod_cast Int.floor_nonneg.mpr h)]
+  · simp only [h, if_false]
+    rw [not_le] at h
+    have h' : 0 ≤ -x := by linarith
+    rw [abs_of_neg h]
+    push_cast
+    rw [abs_neg, abs_of_nonneg (by exact_mod_cast Int.floor_nonneg.mpr h')]
+
+theorem pmod_one (a : ℝ) : pmod a 1.0 = a - ((⌊a⌋ : ℤ) : ℝ) := by
+  unfold pmod; norm_num
+
+theorem ptrunc_sign (x : ℝ) :
+    (1 ≤ x → 1 ≤ ptrunc x) ∧ (x ≤ -1 → ptrunc x ≤ -1) ∧ (|x| < 1 → ptrunc x = 0) := by
+  unfold ptrunc
+  refine ⟨fun h => ?_, fun h => ?_, fun h => ?_⟩
+  · have h0 : 0 ≤ x := by linarith
+    simp only [h0, if_true]
+    exact Int.le_floor.mpr (by exact_mod_cast h)
+  · have h0 : ¬ 0 ≤ x := by linarith
+    simp only [h0, if_false]
+    have : 1 ≤ ⌊-x⌋ := Int.le_floor.mpr (by push_cast; linarith)
+    omega
+  · rw [abs_lt] at h
+    by_cases h0 : 0 ≤ x
+    · simp only [h0, if_true]
+      exact Int.floor_eq_iff.mpr ⟨by simpa using h0, by simpa using h.2⟩
+    · simp only [h0, if_false]
+      rw [not_le] at h0
+      have : ⌊-x⌋ = 0 := Int.floor_eq_iff.mpr ⟨by push_cast; linarith, by push_cast; linarith⟩
+      omega
+
+/-! ### sunrise equation -/
+
+/-- The hour-angle cosine of the sunrise equation is in [−1, 1] when latitude plus declination
+    stay `−c0` short of the pole (`c0 ≤ 0` the standard altitude, radians). -/
+theorem cos_om_bounds {φ δ c0 : ℝ} (hc0 : c0 ≤ 0) (hc0' : -(Real.pi / 2) ≤ c0)
+    (hφδ : |φ| + |δ| ≤ Real.pi / 2 + c0) (hcos : 0 < Real.cos φ * Real.cos δ) :
+    |(Real.sin c0 - Real.sin φ * Real.sin δ) / (Real.cos φ * Real.cos δ)| ≤ 1 := by
+  have hpi := Real.pi_pos
+  rw [abs_le]
+  constructor
+  · rw [le_div_iff₀ hcos]
+    -- cos(φ+δ) ≥ cos(π/2 + c0) = −sin c0
+    have h1 : |φ + δ| ≤ Real.pi / 2 + c0 := le_trans (abs_add_le φ δ) hφδ
+    have h2 : Real.cos (Real.pi / 2 + c0) ≤ Real.cos |φ + δ| :=
+      Real.cos_le_cos_of_nonneg_of_le_pi (abs_nonneg _) (by linarith) h1
+    rw [Real.cos_abs, Real.cos_add, Real.cos_add] at h2
+    simp only [Real.cos_pi_div_two, Real.sin_pi_div_two] at h2
+    linarith
+  · rw [div_le_one hcos]
+    have h1 : |φ - δ| ≤ Real.pi / 2 := by
+      have : |φ - δ| ≤ |φ| + |δ| := abs_sub φ δ
+      linarith
+    have h2 : 0 ≤ Real.cos (φ - δ) :=
+      Real.cos_nonneg_of_mem_Icc ⟨neg_le_of_abs_le h1, le_of_abs_le h1⟩
+    rw [Real.cos_sub] at h2
+    have h3 : Real.sin c0 ≤ 0 := Real.sin_nonpos_of_nonpos_of_neg_pi_le hc0 (by linarith)
+    linarith
+
+/-- `δ = asin(sin λ · sin ε)` stays within `ε` of the equator (`0 ≤ ε ≤ π/2`). -/
+theorem abs_arcsin_mul_le {l ε : ℝ} (h0 : 0 ≤ ε) (h1 : ε ≤ Real.pi / 2) :
+    |Real.arcsin (Real.sin l * Real.sin ε)| ≤ ε := by
+  have hs : 0 ≤ Real.sin ε := Real.sin_nonneg_of_nonneg_of_le_pi h0 (by linarith [Real.pi_pos])
+  have hb : |Real.sin l * Real.sin ε| ≤ Real.sin ε := by
+    rw [abs_mul, abs_of_nonneg hs]
+    calc |Real.sin l| * Real.sin ε ≤ 1 * Real.sin ε := mul_le_mul_of_nonneg_right (Real.abs_sin_le_one l) hs
+      _ = Real.sin ε := one_mul _
+  have hε : Real.arcsin (Real.sin ε) = ε := Real.arcsin_sin (by linarith) h1
+  rw [abs_le]
+  constructor
+  · have := Real.monotone_arcsin (neg_le_of_abs_le hb)
+    rw [Real.arcsin_neg, hε] at this; exact this
+  · have := Real.monotone_arcsin (le_of_abs_le hb)
+    rw [hε] at this; exact this
+
+theorem rise_limit_val : rise_limit = 66.55 := by unfold rise_limit; norm_num
+theorem aNeg_rise_limit : aNeg rise_limit = -66.55 := by
+  rw [rise_limit_val]; unfold aNeg; exact aReduce_of_abs_lt (by norm_num)
+
 end Pymeeus.Refine.SunEvents
